@@ -1,6 +1,7 @@
 //! `mos verif-probe` commands for the unit test runner (verification hook, only compiled with `--cfg mos_verif`).
 //! `testrun`: enumerate the tests of an in-memory project, or run one test instruction by instruction and report
-//! the registered test elements, the machine state before every instruction, the result and the final RAM.
+//! the registered test elements, the machine state before every instruction, the result and the final RAM; with
+//! `ops` (a list of "in" / "over" / "out") the runner is stepped like the debug adapter steps it instead.
 use crate::test_runner::{enumerate_test_cases, ExecuteResult, TestRunner};
 use mos_core::codegen::{SymbolData, SymbolSnapshot, TestElement};
 use mos_core::parser::source::{InMemoryParsingSource, ParsingSource};
@@ -64,6 +65,14 @@ fn snapshot_json(s: &SymbolSnapshot) -> Value {
     })
 }
 
+fn nonzero_cells(ram: &Vec<u8>) -> Vec<Value> {
+    ram.iter()
+        .enumerate()
+        .filter(|(_, b)| **b != 0)
+        .map(|(a, b)| json!([a, b]))
+        .collect::<Vec<_>>()
+}
+
 pub fn cmd_testrun(req: &Value) -> Value {
     let (src, entry) = source_from(req);
     let entry = Path::new(&entry).to_path_buf();
@@ -112,6 +121,38 @@ pub fn cmd_testrun(req: &Value) -> Value {
         }
     }
     let ram0 = runner.verif_ram();
+    // `ops`: drive the runner the way the debug adapter does (step in / step over / step out) and report the
+    // machine state and the number of open calls after every operation
+    if let Some(ops) = req.get("ops").and_then(|o| o.as_array()) {
+        let mut states = vec![];
+        for op in ops {
+            let result = match op.as_str().unwrap_or("in") {
+                "over" => runner.step_over(),
+                "out" => runner.step_out(),
+                _ => runner.execute_instruction(),
+            };
+            let cpu = runner.cpu();
+            let regs = json!([
+                cpu.get_program_counter(),
+                cpu.get_accumulator(),
+                cpu.get_x_register(),
+                cpu.get_y_register(),
+                cpu.get_stack_pointer(),
+                cpu.get_status_register()
+            ]);
+            let (state, done) = match result {
+                Ok(ExecuteResult::Running) => ("running", false),
+                Ok(ExecuteResult::TestSuccess(_)) => ("passed", true),
+                Ok(ExecuteResult::TestFailed(_, _)) => ("failed", true),
+                Err(_) => ("error", true),
+            };
+            states.push(json!({"state": state, "cpu": regs, "call_depth": runner.verif_call_depth()}));
+            if done {
+                break;
+            }
+        }
+        return json!({"elements": elements, "ram0": nonzero_cells(&ram0), "states": states});
+    }
     let mut steps = vec![];
     let mut result = json!({"kind": "step_limit"});
     for _ in 0..max_steps {
@@ -148,13 +189,7 @@ pub fn cmd_testrun(req: &Value) -> Value {
         }
     }
     let ram1 = runner.verif_ram();
-    let nonzero = |ram: &Vec<u8>| {
-        ram.iter()
-            .enumerate()
-            .filter(|(_, b)| **b != 0)
-            .map(|(a, b)| json!([a, b]))
-            .collect::<Vec<_>>()
-    };
+    let nonzero = nonzero_cells;
     json!({
         "elements": elements,
         "ram0": nonzero(&ram0),
